@@ -309,7 +309,15 @@ func (db *RockDB) ZAdd(ts int64, key []byte, args ...common.ScorePair) (int64, e
 	defer wb.Clear()
 
 	var num int64
+	// a member given twice is one member (the last score wins)
+	lastIdx := make(map[string]int, len(args))
+	for i := range args {
+		lastIdx[string(args[i].Member)] = i
+	}
 	for i := 0; i < len(args); i++ {
+		if lastIdx[string(args[i].Member)] != i {
+			continue
+		}
 		score := args[i].Score
 		member := args[i].Member
 
@@ -457,6 +465,7 @@ func (db *RockDB) ZRem(ts int64, key []byte, members ...[]byte) (int64, error) {
 	if len(members) > MAX_BATCH_NUM {
 		return 0, errTooMuchBatchSize
 	}
+	members = dedupKeepLast(members)
 	keyInfo, err := db.GetCollVersionKey(ts, ZSetType, key, false)
 	if err != nil {
 		return 0, err
